@@ -15,7 +15,7 @@ PID = 'C02'
 TAGS = ['abegin', 'awaited', 'got', 'lenter', 'levels', 'benter', 'tick', 'caught', 'taskret', 'tfin', 'sexit', 'now']
 RULE = ('random whole-API programs (timers, flags, tracked values, locks, queues, channels, resources, scopes, cancels; plus '
         'many waiters on one tracked value / resource, several equal-date conditions armed through one connective and watched separately, '
-        '6-12 distinct dates pending at once and requested in arbitrary order, a float-time profile with non-dyadic dates) run in-process and in 4 (quick) / 8 (thorough) other configurations '
+        '6-12 distinct dates pending at once and requested in arbitrary order, a float-time profile with non-dyadic dates, pipe transfers) run in-process and in 4 (quick) / 8 (thorough) other configurations '
         '{PYTHONHASHSEED, junk allocations, USIM_WAITQUEUE=SD, python -O}; every configuration must give the same trace as the '
         'in-process run, which must equal the model trace; non-trivial = at least 4 events from at least 2 activities')
 
@@ -93,6 +93,7 @@ def run(tier, seed, drv, scenarios=None):
     fl.res = st.res
     fl.tag_counts = st.tag_counts
     import c01
+    import c13
     n = 80 if tier == 'quick' else 1500
     batch = []
     if scenarios is None:
@@ -101,6 +102,9 @@ def run(tier, seed, drv, scenarios=None):
             rng = rng_for(seed, PID, i)
             if i % 8 == 0:
                 scenarios.append(('rat', connective_family(rng)))
+            elif i % 8 == 5:
+                # pipes (float time): transfers that overlap, are abandoned by deadlines / cancels and follow each other
+                scenarios.append(('float', c13.family(rng)))
             elif i % 8 == 1:
                 # 6-12 distinct dates pending at once, requested in arbitrary order (the backends order them differently inside)
                 scenarios.append(('rat', c01.crowd_scenario(rng)))
